@@ -565,6 +565,44 @@ def r10_reader_offsets(cx):
     cx.ob("R10", "R10/Layout.parse-parts", ok, g, "Layout::parse: common properties start at 0, every variant starts at common size + 1 (the variant id byte)")
 
 
+def r11_variant_end_agrees(cx):
+    """writer and reader agree on where a variant ends: the creator gives a constant column size 0 (the value lives in
+    the layout as a default), so a variant that needs no padding can END with properties of size 0. The reader must
+    therefore not close a variant merely because the sizes seen so far add up: the closing is decided by what
+    follows (the next VariantId, or the end of the properties)."""
+    F = cx.F
+    # writer side: a property with a default value occupies 0 bytes in the entry
+    w = F.one(impl_self="creator::directory_pack::layout::property::Property", item="size", closure=False, trait="")
+    wb = F.deep_body(w, only=r"layout::property")
+    zero = [i for i, blk in enumerate(wb.blocks) if not blk.get("cleanup") for st in blk["s"]
+            if st["k"] == "assign" and st["rv"]["k"] == "use" and op_const_val(st["rv"]["op"]) == 0 and wb.locals[st["lhs"]["l"]].get("ty") in ("u16", "usize", "u8")]
+    cx.ob("R11", "R11/writer/constant-column-has-size-0", bool(zero), w, "layout::Property::size() is 0 for a column stored as a default value (%d sites)" % len(zero), trivial=True)
+    # reader side
+    g = layout.find_parse(F, "reader::directory_pack::layout::Layout")
+    gb = F.body(g)
+    push = gb.calls(r"Vec::<std::sync::Arc<.*layout::properties::Properties>>::push$|Vec::<.*Properties.*>::push$")
+    if not push:
+        raise AnchorLost("Layout::parse: the place where a variant is completed (push to the list of variants) was not found")
+    ok = True
+    why = []
+    for i, t in push:
+        cds = gb.control_dep_switches(i)
+        looks_ahead = False
+        for sblk in cds:
+            o = gb.origins(gb.term(sblk)["op"])
+            if any(x[0] == "call" and call_is(gb.term(x[1]), r"Peekable::<.*>::peek$|Peekable<.*> as .*Iterator>::peek|::peek$|slice::<impl \[.*\]>::(get|first)|::is_empty$|::len$") for x in o):
+                looks_ahead = True
+        # or: the variant is completed only when a VariantId / the end is met (the push sits on the arm of the is_variant_id test)
+        on_marker = any(any(x[0] == "call" and call_is(gb.term(x[1]), r"RawProperty::is_variant_id$") for x in gb.origins(gb.term(sblk)["op"])) and
+                        not any(x[0] == "call" and call_is(gb.term(x[1]), r"Ord>::cmp$") for x in gb.origins(gb.term(sblk)["op"])) for sblk in cds) and \
+            not any(any(x[0] == "call" and call_is(gb.term(x[1]), r"Ord>::cmp$") for x in gb.origins(gb.term(sblk)["op"])) for sblk in cds)
+        if not (looks_ahead or on_marker):
+            ok = False
+            why.append(t.get("ln"))
+    cx.ob("R11", "R11/reader/variant-closed-on-what-follows", ok, g,
+          "Layout::parse completes a variant only after looking at what follows it (next VariantId / end), not on the running size alone (completions decided by the size only: lines %s)" % why)
+
+
 def r9_dedup_index(cx):
     """IndexedValueStore::add_value: the index returned for a value already present is its position in the
     whole data vector (the value id is assigned per position at finalisation)"""
@@ -602,4 +640,5 @@ RULES = [
     ("R8", r8_width_covers, 3),
     ("R9", r9_dedup_index, 1),
     ("R10", r10_reader_offsets, 2),
+    ("R11", r11_variant_end_agrees, 2),
 ]
